@@ -1,6 +1,7 @@
 #include <eav.h>
 #include <ctype.h>
 #include <eav/private.h>
+#include <eav/verif_hooks.h>
 
 /*
  * Local-part = Dot-string / Quoted-string
@@ -43,7 +44,10 @@ is_5321_local (const char *start, const char *end)
     if (start == end)
         return inverse(EEAV_LPART_EMPTY);
 
-    for (cp = start; cp < end && (ch = *(unsigned char *) cp) != 0; cp++) {
+    for (cp = start; cp < end && (ch = *(unsigned char *) cp) != 0; cp++)
+    EAV_VERIF_LOOP(is_5321_local)
+    {
+        EAV_VERIF_STEP(is_5321_local)
         if (ch > 127)
             return inverse(EEAV_LPART_NOT_ASCII);
         /* rfc5321 does NOT allowing ANY control chars */
